@@ -1,3 +1,6 @@
 //! Verification harness for watchexec: property-based testing and fuzzing.
 pub mod engine;
+pub mod jobdrive;
+pub mod jobgen;
 pub mod props;
+pub mod sim;
